@@ -222,10 +222,17 @@ func As[T fixed.Dx, TO xmath.Numeric](f Int[T]) TO {
 	var n TO
 	switch reflect.TypeOf(n).Kind() {
 	case reflect.Float32, reflect.Float64:
-		return TO(float64(f) / float64(Multiplier[T]()))
+		return TO(asFloat(f, reflect.TypeOf(n).Bits()))
 	default:
 		return TO(int64(f) / Multiplier[T]())
 	}
+}
+
+// asFloat returns the float of the requested size that is nearest to the value. The exact decimal text is parsed,
+// since dividing two floats rounds twice once the raw value no longer fits in the 53 bits of a float64's mantissa.
+func asFloat[T fixed.Dx](f Int[T], bits int) float64 {
+	v, _ := strconv.ParseFloat(f.String(), bits) //nolint:errcheck // The text is always a valid decimal number
+	return v
 }
 
 // CheckedAs is the same as As(), except that it returns an error if the value cannot be represented exactly in the
@@ -234,7 +241,7 @@ func CheckedAs[T fixed.Dx, TO xmath.Numeric](f Int[T]) (TO, error) {
 	var n TO
 	switch reflect.TypeOf(n).Kind() {
 	case reflect.Float32, reflect.Float64:
-		n = TO(float64(f) / float64(Multiplier[T]()))
+		n = TO(asFloat(f, reflect.TypeOf(n).Bits()))
 		if strconv.FormatFloat(float64(n), 'f', -1, reflect.TypeOf(n).Bits()) != f.String() {
 			return 0, fixed.ErrDoesNotFitInRequestedType
 		}
